@@ -1,7 +1,144 @@
 import LcdbModel.Props.Consts
 import LcdbModel.Props.CodingProps
 import LcdbModel.Model.FileName
+import LcdbModel.Lemmas.FileName
+/-
+  C20: file-name grammar of `ldb_parse_filename`.
+
+  `OwnedName s ty n` (LcdbModel/Lemmas/FileName.lean) is the grammar, phrased over `s.toList`:
+    "CURRENT" (.current,0) | "LOCK" (.lock,0) | "LOG" | "LOG.old" (.info,0)
+    | "MANIFEST-" ds (.desc,n) | ds ".log" (.log,n) | ds ".sst" | ds ".ldb" (.table,n)
+    | ds ".dbtmp" (.temp,n)          with `digitsVal ds = some n`
+  where `digitsVal ds` is `none` if `ds` is empty, contains a non-digit or has value ≥ 2^64
+  and the decimal value otherwise (leading zeros allowed).
+-/
 namespace Lcdb.C20
 open Lcdb
+
+/-! ### 1. grammar -/
+
+/-- Everything that parses is an owned name of the stated type and number. -/
+theorem parse_sound {s : String} {ty : FileType} {n : Nat}
+    (h : parseFileName s = some (ty, n)) : OwnedName s ty n :=
+  parseChars_sound (parseFileName_eq_parseChars s ▸ h)
+
+/-- Every owned name parses to its type and number. -/
+theorem parse_complete {s : String} {ty : FileType} {n : Nat}
+    (h : OwnedName s ty n) : parseFileName s = some (ty, n) :=
+  parseFileName_eq_parseChars s ▸ parseChars_complete h
+
+/-- `parseFileName` accepts exactly the grammar `OwnedName`. -/
+theorem parse_grammar (s : String) (ty : FileType) (n : Nat) :
+    parseFileName s = some (ty, n) ↔ OwnedName s ty n :=
+  ⟨parse_sound, parse_complete⟩
+
+/-- The number of an owned name always fits in a `uint64`. -/
+theorem OwnedName.lt {s : String} {ty : FileType} {n : Nat} (h : OwnedName s ty n) :
+    n < 2 ^ 64 :=
+  OwnedChars.lt h
+
+/-- The grammar is functional: a name has at most one (type, number). -/
+theorem OwnedName.unique {s : String} {ty ty' : FileType} {n n' : Nat}
+    (h : OwnedName s ty n) (h' : OwnedName s ty' n') : ty = ty' ∧ n = n' := by
+  have := (parse_complete h).symm.trans (parse_complete h')
+  simpa using this
+
+-- non-vacuity and edge cases of the grammar
+example : OwnedName "00012.log" .log 12 := .log "00012".toList 12 (by decide)
+example : OwnedName "MANIFEST-000005" .desc 5 := .desc "000005".toList 5 (by decide)
+example : parseFileName "CURRENT" = some (.current, 0) := by decide
+example : parseFileName "LOCK" = some (.lock, 0) := by decide
+example : parseFileName "LOG" = some (.info, 0) := by decide
+example : parseFileName "LOG.old" = some (.info, 0) := by decide
+example : parseFileName "MANIFEST-" = none := by decide
+example : parseFileName "MANIFEST-5x" = none := by decide
+example : parseFileName "MANIFEST-5.log" = none := by decide
+example : parseFileName "MANIFEST-18446744073709551615" = some (.desc, 2 ^ 64 - 1) := by decide
+example : parseFileName "MANIFEST-18446744073709551616" = none := by decide
+example : parseFileName "18446744073709551615.log" = some (.log, 2 ^ 64 - 1) := by decide
+example : parseFileName "18446744073709551616.log" = none := by decide
+example : parseFileName "00012.log" = some (.log, 12) := by decide
+example : parseFileName "7.sst" = some (.table, 7) := by decide
+example : parseFileName "7.ldb" = some (.table, 7) := by decide
+example : parseFileName "7.dbtmp" = some (.temp, 7) := by decide
+example : parseFileName ".log" = none := by decide
+example : parseFileName "7.logx" = none := by decide
+example : parseFileName ":.log" = none := by decide   -- ':' is '9' + 1
+example : parseFileName "/.log" = none := by decide   -- '/' is '0' - 1
+example : digitsVal "18446744073709551615".toList = some (2 ^ 64 - 1) := by decide
+example : digitsVal "18446744073709551616".toList = none := by decide
+example : digitsVal [] = none := by decide
+example : digitsVal "12a".toList = none := by decide
+
+/-! ### 2. foreign names -/
+
+/-- A name outside the grammar is rejected. -/
+theorem parseFileName_none_of_not_owned {s : String}
+    (h : ∀ ty n, ¬ OwnedName s ty n) : parseFileName s = none := by
+  cases hp : parseFileName s with
+  | none => rfl
+  | some r => exact absurd (parse_sound (ty := r.1) (n := r.2) hp) (h r.1 r.2)
+
+example : ∀ ty n, ¬ OwnedName "foo.txt" ty n := by
+  intro ty n h
+  have := parse_complete h
+  have hp : parseFileName "foo.txt" = none := by decide
+  rw [hp] at this; cases this
+
+/-- A name containing a path separator is never recognised. -/
+theorem parse_foreign_untouched {s : String} (h : '/' ∈ s.toList) : parseFileName s = none :=
+  parseFileName_none_of_not_owned fun _ _ ho => OwnedChars.slash_not_mem ho h
+
+example : '/' ∈ "sub/000001.log".toList := by decide
+
+/-! ### 3. generated names parse back (`"%06llu"`) -/
+
+theorem makeName_parse_log {n : Nat} (hn : n < 2 ^ 64) :
+    parseFileName (fileNumStr n ++ ".log") = some (.log, n) :=
+  parse_complete (by
+    rw [OwnedName, String.toList_append, fileNumStr_toList]
+    exact .log _ _ (digitsVal_fileNumChars hn))
+
+theorem makeName_parse_ldb {n : Nat} (hn : n < 2 ^ 64) :
+    parseFileName (fileNumStr n ++ ".ldb") = some (.table, n) :=
+  parse_complete (by
+    rw [OwnedName, String.toList_append, fileNumStr_toList]
+    exact .ldb _ _ (digitsVal_fileNumChars hn))
+
+theorem makeName_parse_sst {n : Nat} (hn : n < 2 ^ 64) :
+    parseFileName (fileNumStr n ++ ".sst") = some (.table, n) :=
+  parse_complete (by
+    rw [OwnedName, String.toList_append, fileNumStr_toList]
+    exact .sst _ _ (digitsVal_fileNumChars hn))
+
+theorem makeName_parse_dbtmp {n : Nat} (hn : n < 2 ^ 64) :
+    parseFileName (fileNumStr n ++ ".dbtmp") = some (.temp, n) :=
+  parse_complete (by
+    rw [OwnedName, String.toList_append, fileNumStr_toList]
+    exact .temp _ _ (digitsVal_fileNumChars hn))
+
+theorem makeName_parse_manifest {n : Nat} (hn : n < 2 ^ 64) :
+    parseFileName ("MANIFEST-" ++ fileNumStr n) = some (.desc, n) :=
+  parse_complete (by
+    rw [OwnedName, String.toList_append, fileNumStr_toList]
+    exact .desc _ _ (digitsVal_fileNumChars hn))
+
+/-- All generated names parse back. -/
+theorem makeName_parse {n : Nat} (hn : n < 2 ^ 64) :
+    parseFileName (fileNumStr n ++ ".log") = some (.log, n) ∧
+    parseFileName (fileNumStr n ++ ".ldb") = some (.table, n) ∧
+    parseFileName (fileNumStr n ++ ".sst") = some (.table, n) ∧
+    parseFileName (fileNumStr n ++ ".dbtmp") = some (.temp, n) ∧
+    parseFileName ("MANIFEST-" ++ fileNumStr n) = some (.desc, n) :=
+  ⟨makeName_parse_log hn, makeName_parse_ldb hn, makeName_parse_sst hn,
+   makeName_parse_dbtmp hn, makeName_parse_manifest hn⟩
+
+-- `fileNumStr` really is "%06llu"
+example : fileNumStr 0 = "000000" := by decide
+example : fileNumStr 5 = "000005" := by decide
+example : fileNumStr 123456 = "123456" := by decide
+example : fileNumStr 1234567 = "1234567" := by decide
+example : fileNumStr (2 ^ 64 - 1) = "18446744073709551615" := by decide
+example : parseFileName (fileNumStr 42 ++ ".log") = some (.log, 42) := makeName_parse_log (by decide)
 
 end Lcdb.C20
